@@ -108,6 +108,12 @@ class Picks(_Sys):
         m.trace.append('all:' + ','.join(a.id for a in self.call(env.get_agents)))
 
 
+class QuietWalk(_Sys):
+    def execute(self):
+        m = self.model
+        m.trace.append(f'walk:{m.random.randint(0, 999)}')
+
+
 class LatePick(_Sys):
     """One of several systems that another system registers in the middle of a timestep; draws once per turn."""
 
@@ -180,7 +186,11 @@ class TraceModel(core.Model):
             self.position_type = envs.PositionComponent
         for _ in range(cfg['n']):
             self.spawn()
-        mix = cfg['mix']
+        mix = cfg['mix'] if not cfg.get('quiet') else ''
+        if cfg.get('quiet'):
+            # a model whose systems never ask the environment for anything random while it runs (they use model.random directly): the
+            # first pick / shuffle of the whole run is the closing round on the finished model
+            self.systems.add_system(QuietWalk('walk', self, priority=1))
         if 'b' in mix:
             self.systems.add_system(Births('births', self, priority=3))
         if 'd' in mix:
@@ -189,7 +199,8 @@ class TraceModel(core.Model):
             self.systems.add_system(Movers('movers', self, priority=1))
         if cfg.get('spawn'):
             self.systems.add_system(Spawner('spawner', self, priority=4))
-        self.systems.add_system(Picks('picks', self, priority=0))
+        if not cfg.get('quiet'):
+            self.systems.add_system(Picks('picks', self, priority=0))
         self.energy_collector = collectors.AgentCollector(self, lambda a: a[Energy].e if Energy in a else None, includeTimstep=True,
                                                           id='energy')
         self.systems.add_system(self.energy_collector)
